@@ -18,7 +18,7 @@ CONSTANTS
   Weak_NewValidBlockIgnored = FALSE
   Weak_InitMarksPartsHad = FALSE
   Weak_VoteMarkedBeforeRoundCheck = FALSE
-  AllowGaps = TRUE
+  AllowedGaps <- AllGaps
   NodeMenu <- QuickNode
   PeerMenu <- QuickPeer
   Modes = {"fresh", "live"}
